@@ -44,15 +44,20 @@
 (*   - Truncate through a read-only handle (fail / truncate)               *)
 (*   - a zero-length write at an offset past EOF (extends or not)          *)
 (*   - Read with an empty buffer                                           *)
-(*   - renaming a directory onto an existing directory or file             *)
+(*   - renaming a directory onto an existing directory or file; renaming a *)
+(*     file onto an existing file (replace, or fail as "existing target")  *)
+(*     or onto itself (any result, no effect)                              *)
+(*   - O_CREATE on an existing directory; the start offset of an O_APPEND  *)
+(*     handle (0 or size); n of a failed write; a seek to a negative       *)
+(*     offset (any result; never generated)                                *)
 (*   - Remove/RemoveAll/Rename of the root, RemoveAll of a missing path,   *)
 (*     Readdir of a regular file                                           *)
 (*   - error identities: only success/failure (and io.EOF for reads)       *)
 (*     are compared.                                                       *)
 (* Not modelled: modification times, permissions, MemorySize, paths with   *)
-(* "..", O_SYNC, O_WRONLY|O_RDWR, negative truncate sizes (never           *)
-(* generated).  A seek to a negative offset must fail (never generated by  *)
-(* the TLC scenarios; the random driver produces it rarely).               *)
+(* "..", O_SYNC, O_WRONLY|O_RDWR, negative truncate sizes, path            *)
+(* decorations ("//", "/./", leading "/"): never generated, every judged   *)
+(* call uses the canonical relative path ("." for the root).               *)
 (***************************************************************************)
 EXTENDS Integers, Sequences, FiniteSets, TLC
 
@@ -115,7 +120,7 @@ OpenMayFail(path, f) ==
     IF t # 0
     THEN \/ path = <<>>                              \* the root: any
          \/ f.ex                                     \* O_CREATE|O_EXCL: must; O_EXCL alone: any
-         \/ (IsDir(t) /\ (Wr(f) \/ f.tr))            \* any
+         \/ (IsDir(t) /\ (Wr(f) \/ f.tr \/ f.cr))    \* any (also O_CREATE on a directory: EISDIR elsewhere)
          \/ (IsFile(t) /\ f.tr /\ ~Wr(f))            \* any
     ELSE ~f.cr \/ ~IsDir(ParentOf(path))             \* missing path / missing parent: must
 OpenMayPlain(path, f) ==
@@ -128,19 +133,22 @@ OpenMayTrunc(path, f) ==
 OpenMayCreate(path, f) ==
     /\ Resolve(path) = 0 /\ f.cr /\ IsDir(ParentOf(path))
 
-NewHandle(i, f) == [ino |-> i, off |-> 0, rd |-> Rd(f), wr |-> Wr(f), ap |-> f.ap]
+NewHandle(i, f, o) == [ino |-> i, off |-> o, rd |-> Rd(f), wr |-> Wr(f), ap |-> f.ap]
+\* the offset of a fresh handle is 0; for O_APPEND on a regular file it may also be the size
+\* (the statement does not say where an append handle reads from before its first write)
+StartOffs(tbl, i, f) == IF f.ap /\ i <= Len(tbl) /\ tbl[i].k = "f" THEN {0, Len(tbl[i].d)} ELSE {0}
 
 Open(h, path, f, ok) ==
     LET t == Resolve(path) IN
     \/ /\ ~ok /\ OpenMayFail(path, f) /\ Unchanged
     \/ /\ ok /\ OpenMayPlain(path, f)
-       /\ handles' = (h :> NewHandle(t, f)) @@ handles
+       /\ \E o \in StartOffs(nodes, t, f) : handles' = (h :> NewHandle(t, f, o)) @@ handles
        /\ UNCHANGED nodes
     \/ /\ ok /\ OpenMayTrunc(path, f)
-       /\ handles' = (h :> NewHandle(t, f)) @@ handles
+       /\ handles' = (h :> NewHandle(t, f, 0)) @@ handles
        /\ nodes' = [nodes EXCEPT ![t].d = ""]
     \/ /\ ok /\ OpenMayCreate(path, f)
-       /\ handles' = (h :> NewHandle(Len(nodes) + 1, f)) @@ handles
+       /\ handles' = (h :> NewHandle(Len(nodes) + 1, f, 0)) @@ handles
        /\ nodes' = Append(Link(nodes, ParentOf(path), Last(path), Len(nodes) + 1), [k |-> "f", d |-> ""])
 
 Close(h) == /\ h \in DOMAIN handles
@@ -153,7 +161,7 @@ Write(h, d, n, ok) ==
     /\ h \in DOMAIN handles
     /\ LET hd == handles[h]  i == hd.ino IN
        IF IsDir(i) THEN Unchanged                               \* any result
-       ELSE IF ~hd.wr THEN ~ok /\ n = 0 /\ Unchanged            \* read-only handle: must fail
+       ELSE IF ~hd.wr THEN ~ok /\ Unchanged                     \* read-only handle: must fail (n not compared)
        ELSE LET old == nodes[i].d
                 pos == IF hd.ap THEN Len(old) ELSE hd.off IN
             /\ ok /\ n = Len(d)
@@ -184,7 +192,7 @@ Seek(h, off, wh, pos, ok) ==
        IF IsDir(i) THEN Unchanged                               \* any result
        ELSE LET base == CASE wh = 0 -> 0 [] wh = 1 -> hd.off [] OTHER -> Len(nodes[i].d)
                 np == base + off IN
-            IF np < 0 THEN ~ok /\ Unchanged
+            IF np < 0 THEN Unchanged          \* any (not among the statement's failure causes; never generated)
             ELSE /\ ok /\ pos = np
                  /\ handles' = [handles EXCEPT ![h].off = np]
                  /\ UNCHANGED nodes
@@ -229,9 +237,11 @@ Rename(p, q, ok) ==
     IF RenameMustFail(p, q) THEN ~ok /\ Unchanged
     ELSE LET src == Resolve(p)  dst == Resolve(q) IN
          CASE dst = 0 -> ok /\ Move(p, q) /\ UNCHANGED handles
-           [] dst = src /\ IsFile(src) -> ok /\ Unchanged          \* a file onto itself: nothing happens
+           [] dst = src /\ IsFile(src) -> Unchanged                \* a file onto itself: any result, nothing happens
            [] dst = src /\ IsDir(src) -> Unchanged                 \* any
-           [] IsFile(dst) /\ IsFile(src) -> ok /\ Move(p, q) /\ UNCHANGED handles   \* replaces the file
+           [] IsFile(dst) /\ IsFile(src) ->                        \* any: replaces the file, or "existing target"
+                  \/ ~ok /\ Unchanged
+                  \/ ok /\ Move(p, q) /\ UNCHANGED handles
            [] IsFile(dst) /\ IsDir(src) ->                         \* any
                   \/ ~ok /\ Unchanged
                   \/ ok /\ Move(p, q) /\ UNCHANGED handles
